@@ -821,6 +821,12 @@ func (tx *OngoingTx) checkPreconditions(ctx context.Context, st *ImmuStore) erro
 		}
 		defer snap.Close()
 
+		if !tx.unsafeMVCC && snap.Ts() < st.LastPrecommittedTxID() {
+			// the index fell behind the transactions it was reported to contain (it restarts from the
+			// compacted snapshot after a compaction): the read-set can not be validated against it
+			return fmt.Errorf("%w: index is not up to date", ErrTxReadConflict)
+		}
+
 		for _, e := range tx.mvccReadSet.expectedGets {
 			if !hasPrefix(e.key, txSnap.prefix) {
 				continue
